@@ -37,7 +37,9 @@ REGISTRY = {
     'disp': {
         'clear': [dict(kind='harness', name='disp_clear')],
     },
-    'driver': {'*': [dict(kind='egg', file='replays/driver/panic_before_rebuild.egg'), dict(kind='egg', file='replays/semi/seminaive.egg')]},
+    'driver': {'*': [dict(kind='egg', file='replays/driver/panic_before_rebuild.egg'), dict(kind='egg', file='replays/semi/seminaive.egg'),
+                     dict(kind='egg', file='replays/driver/parallel_rebuild_every_row.egg', args=('-j', '4'), env={'EGGLOG_PARALLEL_REBUILD_CUTOFF': '1000'}),
+                     dict(kind='egg', file='replays/driver/parallel_rebuild_every_row.egg')]},
 }
 
 
